@@ -4,6 +4,9 @@
 pub assume_specification<T: std::cmp::Ord + std::marker::Destruct> [std::cmp::max](a: T, b: T) -> (r: T)
     ensures T::obeys_cmp_spec() ==> r == (if a.cmp_spec(&b) is Greater { a } else { b });
 
+/// `drop(x)`: ends the value's life here (A-drop: destructors of the modelled types are accounted for where the contracts say so)
+pub assume_specification<T>[core::mem::drop::<T>](t: T);
+
 /// std `Result::unwrap_or` / `Result::inspect_err` (their definitions; the closure of inspect_err only observes the error)
 pub assume_specification<T, E>[Result::<T, E>::unwrap_or](r: std::result::Result<T, E>, default: T) -> (out: T)
     ensures out == (match r { Ok(v) => v, Err(_) => default });
